@@ -781,11 +781,28 @@ impl rustc_driver::Callbacks for Cb {
                     ("fields", J::A(fields)),
                 ]));
             }
+            // size / alignment of the type when it has no type or const parameters (lifetimes do not affect layout)
+            let generics = tcx.generics_of(did);
+            let only_lifetimes = generics.own_params.iter().all(|p| matches!(p.kind, ty::GenericParamDefKind::Lifetime))
+                && generics.parent.is_none();
+            let mut size = J::Null;
+            let mut align = J::Null;
+            if only_lifetimes {
+                let aty = tcx.type_of(did).instantiate_identity().skip_norm_wip();
+                let aty = tcx.erase_and_anonymize_regions(aty);
+                let env = ty::TypingEnv::fully_monomorphized();
+                if let Ok(layout) = tcx.layout_of(env.as_query_input(aty)) {
+                    size = J::N(layout.size.bytes() as i128);
+                    align = J::N(layout.align.abi.bytes() as i128);
+                }
+            }
             adts.push(J::O(vec![
                 ("id", s(tcx.def_path_str(did))),
                 ("kind", s(format!("{:?}", tcx.def_kind(id)))),
                 ("vis", s(format!("{:?}", tcx.visibility(did)))),
                 ("variants", J::A(variants)),
+                ("size", size),
+                ("align", align),
                 ("at", loc(tcx, tcx.def_span(did))),
             ]));
         }
